@@ -193,11 +193,52 @@ def mv_ge(req, v):
     return tuple(int(x) for x in req['mv'].split('.')) >= v
 
 
+def conc_scenarios():
+    """Hierarchy-changing requests racing each other."""
+    from vp import reqs
+    base = [reqs.mk_rp(1), reqs.mk_rp(2), reqs.mk_rp(3, parent=P(2))]
+
+    def put(x, parent, mv='1.37', nm=None):
+        return R('PUT', '/resource_providers/' + P(x), {'name': nm or pname(x),
+                                                         'parent_provider_uuid': parent}, mv=mv)
+    pairs = [
+        ('DELETE P1 || POST child under P1', reqs.del_rp(P(1)), reqs.mk_rp(4, parent=P(1))),
+        ('DELETE P1 || PUT P2 under P1', reqs.del_rp(P(1)), put(2, P(1))),
+        ('PUT P1 under P3 || PUT P2 under P1', put(1, P(3)), put(2, P(1))),
+        ('PUT P1 under P2 || PUT P2 under P1', put(1, P(2)), put(2, P(1))),
+        ('PUT P3 to top || DELETE P2', put(3, None), reqs.del_rp(P(2))),
+        ('PUT P2 under P1 || POST child under P3', put(2, P(1)), reqs.mk_rp(4, parent=P(3))),
+        ('PUT P2 under P1 @1.14 || PUT P1 under P3 @1.14', put(2, P(1), '1.14'),
+         put(1, P(3), '1.14')),
+    ]
+    out = []
+    for name, a, b in pairs:
+        a, b = dict(a), dict(b)
+        a['tag'], b['tag'] = name.split(' || ')
+        out.append({'name': name, 'setup': base, 'requests': [a, b], 'bound': None,
+                    'max_exec': 4000})
+    return out
+
+
 def run(ctx):
     n = 4 if ctx.quick else 5
     ctx.budget = ctx.budget or (240 if ctx.quick else 1500)
     st = explore_seq.explore(ctx, 'vp.props.c09', 'Spec', (n,), max_depth=64)
+    # second part: the hierarchy under concurrent requests, with and without foreign keys (SQLite
+    # does not enforce them unless asked to; MySQL/PostgreSQL do)
+    from vp import explore_conc
+    sc = conc_scenarios()
+    conc = {}
+    for fk in (True, False):
+        tot = explore_conc.run_scenarios(ctx, 'C09', sc, fk=fk)
+        conc['foreign_keys_%s' % ('on' if fk else 'off')] = {
+            'scenarios': tot['scenarios'], 'states': tot['states'],
+            'transitions': tot['transitions'], 'schedules_executed': tot['executions'],
+            'outcome_vectors': tot['outcome_vectors']}
+        st['states'] += tot['states']
+        st['transitions'] += tot['transitions']
     ctx.level = 'model_checking'
+    ctx.coverage['concurrent_part'] = conc
     ctx.coverage.update({
         'states': st['states'], 'transitions': st['transitions'],
         'traces_validated_against_impl': st['transitions'],
@@ -222,4 +263,7 @@ def run(ctx):
 
 
 def replay(ctx, data):
+    if data.get('engine') == 'conc':
+        from vp import explore_conc
+        return explore_conc.replay(ctx, data)
     return explore_seq.replay(ctx, data)
